@@ -767,7 +767,13 @@ class Program:
         return vi
 
     def body(self, path):
-        return self.bodies.get(path)
+        b = self.bodies.get(path)
+        if b is None and isinstance(path, str) and path.endswith("::parse_be"):
+            # a nom-derive decoder rewritten by hand has no `parse_be`: its `parse` is the decoder
+            hb = self.bodies.get(path[:-len("_be")])
+            if hb is not None and not hb.derived:
+                return hb
+        return b
 
     def inlined_body(self, path, should_inline, key=None):
         """Body of `path` with the selected private callees inlined at CFG level (cached per key)."""
